@@ -20,7 +20,8 @@
 //     prebatch       before the transaction of the batch that is going to be refused,
 //     requeued       right after the re-queue (the worker holds the task again, before its transaction),
 //     requeued-susp  after the re-queue, the worker in suspend() because the follower is inside a block,
-//     with 0 / 1 / many announcements queued, the follower free, suspended or inside a block;
+//     with 0 / 1 / many announcements queued, the follower free (running unheld through a burst of
+//     announcements), suspended or inside a block (held in front of its transaction);
 //  4. required: Stop returns within the bound, the database is closed, both goroutines are gone and neither
 //     touched the database after the close;
 //  5. the wallet is opened again on the same directory (the node still on the side branch, a few new tips):
@@ -73,7 +74,10 @@ type rsRun struct {
 	nann int
 }
 
-func (q *rsRun) announce() {
+func (q *rsRun) announce() { q.announceOpt(false) }
+
+// noteFirst: the follower runs unheld and may take the block before the call returns
+func (q *rsRun) announceOpt(noteFirst bool) {
 	var b *massutil.Block
 	if len(q.fork) > 0 {
 		b = q.fork[0]
@@ -85,8 +89,13 @@ func (q *rsRun) announce() {
 		}
 		b = nb
 	}
-	q.x.w.H.OnBlockConnected(b.MsgBlock())
-	q.x.ctl.Note("node", "a")
+	if noteFirst {
+		q.x.ctl.Note("node", "a")
+		q.x.w.H.OnBlockConnected(b.MsgBlock())
+	} else {
+		q.x.w.H.OnBlockConnected(b.MsgBlock())
+		q.x.ctl.Note("node", "a")
+	}
 	q.nann++
 }
 
@@ -211,7 +220,11 @@ func rs(seed uint64, n int) {
 	if _, err := x.node.Detach(); err != nil {
 		fail("detach: %v", err)
 	}
-	for i, e := 0, 1+r.Intn(2); i < e; i++ {
+	nfork := 1 + r.Intn(2)
+	if sh.place == "wait" && !sh.hblock && nfork < nq {
+		nfork = nq // the burst of announcements is mined in advance: announcing is then faster than processing
+	}
+	for i := 0; i < nfork; i++ {
 		b, err := x.mine()
 		if err != nil {
 			fail("mine: %v", err)
@@ -273,9 +286,12 @@ func rs(seed uint64, n int) {
 		if !sched.Until(rsWait, func() bool { a := rsWorkerAt(x); return a == "retry-wait" || strings.HasPrefix(a, "held-") || a == "suspend" }) {
 			fail("the worker did not leave the refused batch")
 		}
-		if !sh.hblock {
-			for i := 0; i < nq; i++ { // announced faster than processed
-				q.announce()
+		if !sh.hblock && nq > 0 {
+			// announced faster than processed: the follower runs unheld from here on (events are recorded as
+			// they happen; an announcement is noted before the call, the follower may take the block at once)
+			x.ctl.SetHold(false)
+			for i := 0; i < nq; i++ {
+				q.announceOpt(true)
 			}
 		}
 	case "requeued":
